@@ -195,20 +195,61 @@ def r91(ctx, repo):
 # ----------------------------------------------------------------------
 # models shared by split and join
 
-class NumArr(Arr):
-    """array of concrete numbers"""
+def _f32(x):
+    """x rounded to the single-precision grid"""
+    import struct
+    return struct.unpack("f", struct.pack("f", x))[0]
 
-    def __init__(self, items=()):
+
+class F64(float):
+    """numpy float64 scalar: a *strong* operand of the promotion rules
+    (NEP 50) – an array of lower precision combined with it is promoted;
+    a python float is weak and leaves the precision of the array"""
+
+    def __add__(self, o):
+        r = float.__add__(self, o)
+        return r if r is NotImplemented else F64(r)
+
+    __radd__ = __add__
+
+    def __sub__(self, o):
+        r = float.__sub__(self, o)
+        return r if r is NotImplemented else F64(r)
+
+    def __rsub__(self, o):
+        r = float.__rsub__(self, o)
+        return r if r is NotImplemented else F64(r)
+
+    def __mul__(self, o):
+        r = float.__mul__(self, o)
+        return r if r is NotImplemented else F64(r)
+
+    __rmul__ = __mul__
+
+
+class NumArr(Arr):
+    """array of concrete numbers; fdt = precision of its floating-point
+    items ("f8" double, "f4" single)"""
+
+    def __init__(self, items=(), fdt="f8"):
         super().__init__(items, "num")
         self.kind = "num"
+        self.fdt = fdt
+        if fdt == "f4":
+            self.v = [_f32(x) if isinstance(x, float) else x
+                      for x in self.v]
 
     def _bin(self, o, op):
         if isinstance(o, Arr):
             if len(o) != len(self):
                 raise ModelFault("operands could not be broadcast together")
-            return NumArr([op(a, b) for a, b in zip(self.v, o.v)])
+            fdt = "f8" if "f8" in (self.fdt, getattr(o, "fdt", "f8")) \
+                else "f4"
+            return NumArr([op(a, b) for a, b in zip(self.v, o.v)], fdt)
         if isinstance(o, (int, float)):
-            return NumArr([op(a, o) for a in self.v])
+            # a numpy scalar promotes, a python scalar does not
+            fdt = "f8" if isinstance(o, F64) else self.fdt
+            return NumArr([op(a, o) for a in self.v], fdt)
         return NotImplemented
 
     def __add__(self, o):
@@ -227,11 +268,17 @@ class NumArr(Arr):
     def __getitem__(self, k):
         r = super().__getitem__(k)
         if isinstance(r, Arr):
-            return NumArr(r.v)
+            return NumArr(r.v, self.fdt)
+        if type(r) is float and self.fdt == "f8":
+            return F64(r)
         return r
 
+    def __iter__(self):
+        return iter([F64(x) if type(x) is float and self.fdt == "f8" else x
+                     for x in self.v])
+
     def copy(self):
-        return NumArr(self.v)
+        return NumArr(self.v, self.fdt)
 
 
 class Config(dict):
@@ -512,7 +559,7 @@ class HWM:
 def cli_globals(repo, rel, fs, wmod, datasets, extra=None):
     g = {
         "np": numpy_model(zeros=lambda n, dtype=None: NumArr([0.0] * n),
-                          float64="float64", uint64=_uint64,
+                          float64=F64, uint64=_uint64,
                           array=_np_array_num),
         "warnings": wmod,
         "hdf5plugin": NS("hdf5plugin", Zstd=lambda **k: Opaque("zstd")),
@@ -572,7 +619,7 @@ def _np_array_num(a, dtype=None, copy=True):
     if isinstance(a, (list, tuple)) and all(
             isinstance(x, (int, float)) and not isinstance(x, bool)
             for x in a):
-        return NumArr([float(x) if dtype in ("float64", float) else x
+        return NumArr([float(x) if dtype in ("float64", float, F64) else x
                        for x in a])
     raise MiniError("np.array of a non-numeric model value in a CLI task")
 
@@ -797,7 +844,7 @@ class DSJ:
     """one input of join"""
 
     def __init__(self, name, date, tm, run, innate, anc, fs, fr=2000.,
-                 n=3, ido=None, with_ts=False):
+                 n=3, ido=None, with_ts=False, time_f4=False):
         self.name = name
         self.fs = fs
         self.n = n
@@ -814,7 +861,11 @@ class DSJ:
             # unix time of the acquisition start (with its fraction)
             self.config["experiment"]["timestamp"] = self.stamp()
         self.num = {
-            "time": NumArr([0.5 * i for i in range(n)]),
+            # time_f4: 'time' stored in single precision (files without
+            # 'frame', whose time is not recomputed); values off the
+            # float32 grid of large numbers
+            "time": NumArr([0.5 * i + 0.001 for i in range(n)], "f4")
+            if time_f4 else NumArr([0.5 * i for i in range(n)]),
             "frame": NumArr([1000 * i + 7 for i in range(n)]),
             "index_online": NumArr(ido or [2 * i for i in range(n)]),
         }
@@ -1055,10 +1106,11 @@ BASE = ["area_um", "deform", "frame", "index_online", "time"]
 
 
 def spec(date="2020-01-01", tm="12:00:00", run=1, innate=None, anc=(),
-         fr=2000., ido=None, with_ts=False):
+         fr=2000., ido=None, with_ts=False, time_f4=False):
     return dict(date=date, tm=tm, run=run,
                 innate=list(innate if innate is not None else BASE),
-                anc=list(anc), fr=fr, ido=ido, with_ts=with_ts)
+                anc=list(anc), fr=fr, ido=ido, with_ts=with_ts,
+                time_f4=time_f4)
 
 
 def r93_r94(ctx, repo):
@@ -1132,6 +1184,27 @@ def r93_r94(ctx, repo):
            "(e.g. the fractional seconds are added to a value that already "
            "contains them)", node=f,
            label="join offsets with timestamps present")
+    # --- a later input stores 'time' in single precision (no 'frame', so
+    # the time axis is not recomputed) and starts a day later: the offset
+    # is added in double precision (a numpy float64 offset promotes the
+    # array; a python float would leave it float32 and round the sum to a
+    # grid of several milliseconds)
+    nofr = [x for x in BASE if x != "frame"]
+    f4 = {"a": spec(tm="12:00:00", innate=nofr),
+          "b": spec(date="2020-01-02", tm="13:01:15.05", innate=nofr,
+                    time_f4=True),
+          "c": spec(date="2020-01-03", tm="01:00:00", innate=nofr,
+                    time_f4=True)}
+    pacc = {}
+    for order in (["a", "b"], ["a", "b", "c"]):
+        merge(pacc, case(f4, order, ["time"]))
+    bad = pacc.get("time")
+    ctx.ob("R9.3", bad is None,
+           "single-precision 'time' of a later input: the acquisition "
+           "offset is added in double precision" if bad is None else
+           bad + " – the offset is added in the precision of the input "
+           "(a python float does not promote a float32 array under NumPy 2)",
+           node=f, label="join time offset in double precision")
     # --- feature intersection
     facc = {"features": acc["features"]}
     full = ["area_cvx", "area_msd", "area_ratio", "deform", "time", "frame",
